@@ -278,6 +278,53 @@ def _files(ctx, b, tr, ser, final_l):
                   where(b, bi), 'document = final_state.as_svg()', 'the saved document is not final_state.as_svg()')
 
 
+def _partial_cmp_by_value(f, pcb):
+    """partial_cmp(self, other) by value (State::score opaque): on the paths where both scores are Some the result is
+    f64::partial_cmp(score(self), score(other)) — in that order, not post-processed — and on every other path it is None;
+    whatever mix of `match`, `?`, `let .. else`, `and_then`, `zip` the source uses."""
+    from ..sym import SymEx, SYM, sfield
+    names = [pcb.local_name(i) or 'arg%d' % i for i in pcb.args()]
+    if len(names) != 2:
+        return False, None
+    sx = SymEx(f, opaque=('score',))
+    try:
+        outs = sx.run(pcb, [SYM(names[0]), SYM(names[1])])
+    except Exception:      # noqa: BLE001
+        return False, None
+    if not outs or sx.aborted:
+        return False, None
+
+    def payload(v, who):
+        # Some-payload of score(who)
+        want_call = ('app', 'State::score', (SYM(who),))
+        x = v
+        for _ in range(4):
+            if isinstance(x, tuple) and x[0] == 'ref':
+                return None
+            break
+        return x == ('app', 'field:0', (('app', 'downcast:Some', (want_call,)),))
+    n_cmp = 0
+    for o in outs:
+        r = sx.deep(o.st, o.ret)
+        if isinstance(r, tuple) and r[0] == 'struct' and r[2] is not None and r[2][0] == 'None':
+            # must be a path on which one of the scores is None
+            if not any(c[0] == 'switch' and c[2] == 0 and 'State::score' in repr(c[1]) for c in o.pc):
+                return False, 'partial_cmp returns None although both scores are defined'
+            continue
+        if isinstance(r, tuple) and r[0] == 'app' and r[1].endswith('partial_cmp') and len(r[2]) == 2:
+            a0, a1 = r[2]
+            if payload(a0, names[0]) and payload(a1, names[1]):
+                n_cmp += 1
+                continue
+            if payload(a0, names[1]) and payload(a1, names[0]):
+                return False, 'partial_cmp compares score(other) with score(self): the order is reversed, max selects the worst replica'
+            return False, 'operands of the f64 comparison are not score(self), score(other)'
+        return False, 'partial_cmp returns %s on some path' % (repr(r)[:80],)
+    if n_cmp < 1:
+        return False, 'partial_cmp never compares the two scores'
+    return True, 'by value: Some/Some -> f64::partial_cmp(score(self), score(other)); otherwise None (%d paths)' % len(outs)
+
+
 def _ordering(ctx):
     rep, f = ctx.rep, ctx.facts
     n = 0
@@ -348,6 +395,12 @@ def _ordering(ctx):
                     if not (rv['r'] == 'aggr' and rv.get('variant') == 'None'):
                         ok = False
                         why = 'partial_cmp returns a constant/other ordering on some path'
+        if not ok:
+            okv, whyv = _partial_cmp_by_value(f, pcb)
+            if okv:
+                ok, why = True, whyv
+            elif whyv:
+                why = whyv
         rep.check(ok, 'R2', 'partial_cmp-compares-scores-in-order:%s' % adt, where(pcb),
                   'partial_cmp(a,b) = f64::partial_cmp(score(a), score(b))', why)
         rep.sample('%s: cmp = partial_cmp(self, other).unwrap(); partial_cmp = f64::partial_cmp(score(self)?, score(other)?)' % adt)
